@@ -19,6 +19,7 @@ import shutil
 import sys
 import tempfile
 import time
+import warnings
 from pathlib import Path
 
 import falcon
@@ -138,6 +139,19 @@ class OddFileWrapper:
         if data:
             return data
         raise StopIteration
+
+
+class OddStr(str):
+    """A str subclass whose textual conversions differ from its value (a str argument may be one)."""
+
+    def __str__(self):
+        return 'ODD-STR'
+
+    def __repr__(self):
+        return 'ODD-REPR'
+
+    def __format__(self, spec):
+        return 'ODD-FORMAT'
 
 
 # value of case['fwrap'] -> what the server puts into environ['wsgi.file_wrapper']
@@ -286,6 +300,10 @@ class World:
             self.wsgi['strip'].add_static_route(prefix, srv, **kw)
             self.asgi['strip'].add_static_route(prefix, srv, **kw)
             self.routes['strip'].append(M.Route(name, prefix, srv, mfb, False))
+        # argument types: str subclasses, a truthy non-bool flag
+        for app in (self.wsgi['strip'], self.asgi['strip']):
+            app.add_static_route(OddStr('/typed'), OddStr(srv), downloadable=1, fallback_filename=OddStr('index.html'))
+        self.routes['strip'].append(M.Route('typed', '/typed', srv, J(srv, 'index.html'), True))
         self.by_name = {r.name: (a, r) for a in self.routes for r in self.routes[a]}
 
 
@@ -302,6 +320,18 @@ def execute(world, case):
     """Run one request against the real app with the open monitor armed."""
     raw = case['raw_path'].replace(ROOT_TOKEN, world.root).encode('utf-8')
     headers = [tuple(h) for h in case.get('headers', [])]
+    if case.get('wfilter'):
+        # the embedding process may run with warnings turned into errors (-W error / PYTHONWARNINGS)
+        with warnings.catch_warnings():
+            warnings.simplefilter(case['wfilter'])
+            # handles left to the garbage collector are outside the statement (see fd_diagnostic); turned into
+            # errors they would only be printed by the interpreter as unraisable exceptions
+            warnings.simplefilter('ignore', ResourceWarning)
+            return _execute(world, case, raw, headers)
+    return _execute(world, case, raw, headers)
+
+
+def _execute(world, case, raw, headers):
     au = audit()
     set_tz(case.get('tz'))
     if case['fw'] == 'wsgi':
@@ -550,10 +580,12 @@ def _rel(world, p):
 
 def nontrivial_key(case):
     return (case['fw'], case['app'], case['method'], case['raw_path'], tuple(map(tuple, case.get('headers', []))),
-            case.get('fwrap', False), case.get('tz'))
+            case.get('fwrap', False), case.get('tz'), case.get('wfilter'))
 
 
 def run_case(rec, world, case):
+    if case.get('wfilter'):
+        rec.count('env.warnings_' + case['wfilter'])
     raw, res, opens = execute(world, case)
     out = judge(rec, world, case, raw, res, opens)
     rec.case(nontrivial_key(case))
@@ -582,16 +614,22 @@ def seg_alphabet(world):
             'x.bin', 'X']
 
 
-ROUTE_PAIRS = [('static', 'fb'), ('dl', 'fbabs'), ('p', 'subonly'), ('rootapp', 'nest'), ('sstatic', 'sfb')]
+ROUTE_PAIRS = [('static', 'fb'), ('dl', 'fbabs'), ('p', 'subonly'), ('rootapp', 'nest'), ('sstatic', 'sfb'),
+               ('typed', 'static')]
 PREFIX = {'static': '/static/', 'dl': '/dl/', 'fb': '/fb/', 'fbabs': '/fbabs/v1/', 'nest': '/static/nest/',
-          'p': '/p/', 'subonly': '/subonly/', 'rootapp': '/', 'sstatic': '/static/', 'sfb': '/fb/'}
+          'p': '/p/', 'subonly': '/subonly/', 'rootapp': '/', 'sstatic': '/static/', 'sfb': '/fb/',
+          'typed': '/typed/'}
+
+
+_MK = [0]
 
 
 def mk(world, route_name, tail, fw, method='GET', headers=(), fwrap=False):
     app, _ = world.by_name[route_name]
     raw = (PREFIX[route_name] + tail).replace(world.root, ROOT_TOKEN)
+    _MK[0] += 1
     return {'fw': fw, 'app': app, 'method': method, 'raw_path': raw, 'headers': [list(h) for h in headers],
-            'fwrap': fwrap, 'tz': _TZ[0]}
+            'fwrap': fwrap, 'tz': _TZ[0], 'wfilter': 'error' if _MK[0] % 5 == 0 else None}
 
 
 def exhaustive_paths(rec, world):
@@ -628,6 +666,23 @@ def targeted_paths(world):
     # bare prefixes of fallback routes are answered by the fallback
     for p in ['/fb', '/fb/', '/subonly', '/subonly/', '/static/', '/dl/', '/static/nest', '/static/nest/']:
         out.append(('main', p))
+    # long spellings made of segments that normalise away (lengths around 255 / 512 / 1024 / PATH_MAX and beyond)
+    for rn in ('static', 'fb', 'rootapp', 'sstatic', 'subonly'):
+        pre = PREFIX[rn]
+        app = world.by_name[rn][0]
+        for name in ('a.txt', 'sub/inner.txt', 'missing.txt', '../outside_secret.txt') + \
+                (('d' * 250 + '/' + 'e' * 250 + '/' + 'x' * 10,) if rn == 'static' else ()):
+            for n in (100, 253, 254, 255, 256, 300, 509, 510, 1024, 2040, 2046, 2047, 2048, 2049, 2100, 3000, 6000):
+                out.append((app, pre + './' * n + name))
+                out.append((app, pre + name + '/.' * n))
+            for n in (50, 102, 103, 150, 600, 818, 819, 820, 900, 2000):
+                out.append((app, pre + 'sub/../' * n + name))
+                out.append((app, pre + 'X/../' * n + name))
+                out.append((app, pre + 'nosuch/../' * (n // 2) + name))
+            for n in (200, 511, 512, 513, 4095, 4096, 4097, 10000):
+                out.append((app, pre + 'A' * n))
+                out.append((app, pre + 'A' * n + '/../' + name))
+                out.append((app, pre + ('B' * 100 + '/') * (n // 101) + '../' * (n // 101) + name))
     # an app that strips a trailing slash before routing
     for p in ['/static', '/static/', '/static//', '/fb', '/fb/', '/fb//', '/static/sub/', '/fb/sub/', '/static/a.txt/',
               '/fb/a.txt/', '/fb/missing/', '/static/../', '/fb/../', '/static/sub/../', '/fb/sub/..//', '/static/..%2f',
@@ -689,6 +744,13 @@ RANGE_OTHER_UNITS = ['items=0-1', 'seconds=1-2', 'none=0-0', 'x-y=1-', 'bytess=0
 WSGI_ASGI_VARIANTS = [('wsgi', k) for k in FWRAP_KEYS] + [('asgi', False)]
 
 
+# RFC 7233 3.1: a Range in a unit the server does not understand MUST be ignored, whatever its range-set looks like
+FOREIGN_UNITS = ['items', 'seconds', 'pages', 'chapters', 'lines', 'none', 'x-y', 'bytess', 'byte', 'b', 'a.b', '!#$%']
+FOREIGN_SETS = ['0-1', '1-', '-1', '0-0', '1-2,4-5', '0-0,-1', '1.5-3.25', 'iv-ix', '3', '10-5', 'a', '-', '--', '0-0,', '*',
+                'x=y', '1-2-3', '0x10-0x20', '-0', '9' * 30, 'last', '1:2', '[1,2]', '%31-%32']
+RANGE_FOREIGN = ['%s=%s' % (u, r) for u in FOREIGN_UNITS for r in FOREIGN_SETS]
+
+
 def range_cases(rec, world):
     """Bounded-exhaustive range arithmetic: every (size, first, last) and suffix length."""
     smax = 6 if rec.tier == 'quick' else 8
@@ -710,6 +772,19 @@ def range_cases(rec, world):
                 rn = ('static', 'dl', 'fb', 'p')[idx % 4]
                 run_case(rec, world, mk(world, rn, 'f%d' % s, fw, method, [('Range', v)], fwrap))
                 rec.count('exh.range')
+    # every foreign unit with every shape of range-set, on an empty, a one-byte and a longer file
+    for s_ in (0, 1, 5):
+        for v in RANGE_FOREIGN:
+            for fw, fwrap in (('wsgi', False), ('asgi', False), ('wsgi', 'fd')):
+                idx += 1
+                if idx % rec.nshards != rec.shard:
+                    continue
+                rn = ('static', 'dl', 'fb', 'sstatic', 'missing')[idx % 5]
+                name = 'f%d' % s_
+                if rn == 'missing':
+                    rn, name = 'fb', 'missing.txt'
+                run_case(rec, world, mk(world, rn, name, fw, 'HEAD' if idx % 11 == 0 else 'GET', [('Range', v)], fwrap))
+                rec.count('exh.range_foreign')
     # block boundaries of the streaming code on a multi-block file
     edges = [0, 1, 8191, 8192, 8193, 16383, 16384, 16385, 19998, 19999, 20000, 20001]
     for a in edges:
@@ -771,7 +846,7 @@ def ims_cases(rec, world):
         if tz == home:
             continue
         set_tz(tz)
-        _ims_table(rec, world, ['a.txt', 'f5', 'missing.txt'], ('static', 'fb', 'sfb'), k + 1, strict_only=True)
+        _ims_table(rec, world, ['a.txt', 'missing.txt'], ('static', 'sfb'), k + 1, strict_only=True)
     set_tz(home)
 
 
@@ -875,7 +950,7 @@ def random_headers(rng, world, mtime_hint):
         elif k < 0.9:
             hs.append(('Range', rng.choice(RANGE_MALFORMED)))
         else:
-            hs.append(('Range', rng.choice(RANGE_OTHER_UNITS)))
+            hs.append(('Range', rng.choice(RANGE_OTHER_UNITS + RANGE_FOREIGN)))
     if rng.random() < 0.2:
         hs.append(('If-Modified-Since', rng.choice(ims_values(mtime_hint))))
     return hs
@@ -942,7 +1017,7 @@ def gen_episode(rng):
 
 
 def episode(rec, world, steps):
-    for st in steps:
+    for k, st in enumerate(steps):
         if st[0] == 'write':
             _, name, size, cseed, mtime = st
             r = random.Random(cseed)
@@ -951,6 +1026,7 @@ def episode(rec, world, steps):
         else:
             _, rn, name, fw, method, hs, fwrap = st
             case = mk(world, rn, name, fw, method, hs, fwrap)
+            case['wfilter'] = 'error' if k % 3 == 0 else None       # a function of the step, so replay is exact
             case['episode'] = [list(s) for s in steps]     # the whole episode: replay is self-contained
             case['episode_tz'] = _TZ[0]
             run_case(rec, world, case)
@@ -981,7 +1057,7 @@ def fd_diagnostic(rec, world):
         for fw in ('wsgi', 'asgi'):
             with warnings.catch_warnings(record=True) as ws:
                 warnings.simplefilter('always', ResourceWarning)
-                execute(world, mk(world, 'static', 'a.txt', fw, method, hs))
+                execute(world, dict(mk(world, 'static', 'a.txt', fw, method, hs), wfilter=None))
                 gc.collect()
             n = sum(1 for x in ws if issubclass(x.category, ResourceWarning))
             if n:
@@ -1003,7 +1079,9 @@ def run(rec):
     rec.assumptions = [
         'no symlinks in the tree, POSIX path semantics (the statement excludes symlinks)',
         'strictly refused spellings (must be 404): remainder that climbs above the directory or is absolute, '
-        'doubled/leading separator, backslash, C0/C1 control character, one of ~?<>:*|\'" ; every other spelling may '
+        'doubled/leading separator, backslash, C0/C1 control character, one of ~?<>:*|\'" , remainder longer than '
+        'PATH_MAX (4096) characters however it would normalise (the statement fixes no smaller limit, so falcon\'s own '
+        '512 is not demanded); every other spelling may '
         'be answered 404 or with the file it lexically denotes inside the directory',
         'plain names ([A-Za-z0-9_-]+ with an optional extension, <= 100 chars) of existing files must be served; a '
         'missing plain name is answered by the fallback file when one is configured (documented behaviour)',
@@ -1013,6 +1091,7 @@ def run(rec):
         'produce a self-consistent answer (400, whole file, or a 206/416 whose headers match the body)',
         'a wsgi.file_wrapper may transmit from the descriptor of an object that offers fileno(), from its current '
         'position to the end of the file (PEP 3333, optional platform-specific file handling)',
+        'the embedding process may turn warnings into errors (every fifth request runs under simplefilter("error"))',
         'the process time zone is a configuration of the server (POSIX TZ, changed with time.tzset())',
         'library imports (.py/.pyc/.so under the interpreter, falcon or framework directories) are not counted as '
         'opens made by the route',
@@ -1048,7 +1127,8 @@ def run(rec):
     for name, n in [('mon.audit_requests', 20000), ('mon.open_events', 3000), ('open.inside', 2000), ('open.fallback', 200),
                     ('audit.canary_ok', 8), ('mon.404_strict', 5000), ('cls.escape', 3000),
                     ('cls.refused:doubled-separator', 500), ('cls.refused:backslash', 200), ('cls.refused:control-char', 200),
-                    ('cls.refused:reserved-char', 100), ('cls.plain', 500), ('cls.other', 500), ('cls.root', 100),
+                    ('cls.refused:reserved-char', 100), ('cls.refused:over-long', 100), ('range.ignorable', 500),
+                    ('exh.range_foreign', 500), ('cls.plain', 500), ('cls.other', 500), ('cls.root', 100),
                     ('route.none', 50), ('mon.404_noroute', 50), ('served.target', 2000), ('served.fallback', 200),
                     ('mon.body_full', 1000), ('mon.body_full_multiblock', 4), ('mon.body_partial', 800), ('mon.416', 200),
                     ('mon.304', 100), ('mon.ims_modified', 50), ('mon.range_lenient', 150), ('range.outcome.empty', 50),
@@ -1056,7 +1136,7 @@ def run(rec):
                     ('exh.targeted', 500), ('rand.requests', 400 if q else 2000), ('episode.requests', 16),
                     ('route.static', 500), ('route.dl', 500), ('route.fb', 500), ('route.fbabs', 500), ('route.nest', 200),
                     ('route.p', 500), ('route.subonly', 500), ('route.rootapp', 500), ('route.sstatic', 500),
-                    ('route.sfb', 500), ('fwrap.False', 2000), ('fwrap.True', 500), ('fwrap.fd', 500), ('fwrap.odd', 500)] + \
+                    ('route.sfb', 500), ('route.typed', 500), ('env.warnings_error', 3000), ('fwrap.False', 2000), ('fwrap.True', 500), ('fwrap.fd', 500), ('fwrap.odd', 500)] + \
             [('tz.' + z, 300) for z in TZS]:
         rec.floor(name, n)
 
@@ -1067,7 +1147,7 @@ def replay(rec, w):
     try:
         warmup(world)
         canary(rec, world)
-        case = {k: wit[k] for k in ('fw', 'app', 'method', 'raw_path', 'headers', 'fwrap', 'tz') if k in wit}
+        case = {k: wit[k] for k in ('fw', 'app', 'method', 'raw_path', 'headers', 'fwrap', 'tz', 'wfilter') if k in wit}
         case.setdefault('headers', [])
         if wit.get('episode'):
             set_tz(wit.get('episode_tz'))
